@@ -41,6 +41,35 @@ def stkPPRender : Option PPHeader → String
   | none => "none"
   | some h => s!"v{h.version}:{hx h.src.host}:{h.src.port}:{hx h.dst.host}:{h.dst.port}"
 
+def stkNatList (sep : String) (s : String) : Option (List Nat) :=
+  if s = "" then some [] else (s.splitOn sep).mapM String.toNat?
+
+def stkJoinNat (sep : String) (l : List Nat) : String := sep.intercalate (l.map toString)
+
+def stkWErr : WErr → String
+  | .none => "0"
+  | .wait => "wait"
+  | .sink => "sink"
+
+/-- one call of a `wlim` result: `<n>:<err>:<sink write sizes>:<tokens | ->` -/
+def stkWObs (len : Nat) (s : String) : Option C01.WObs :=
+  match s.splitOn ":" with
+  | [n, e, sizes, toks] =>
+    match n.toNat?, stkNatList "/" sizes with
+    | some n, some sizes =>
+      let reqs := if toks = "-" then some none else (stkNatList "/" toks).map some
+      reqs.map fun r => { len := len, n := n, ok := e == "0", offered := sizes, reqs := r }
+    | _, _ => none
+  | _ => none
+
+def stkZipObs : List Nat → List String → Option (List C01.WObs)
+  | [], [] => some []
+  | l :: ls, c :: cs => do
+    let o ← stkWObs l c
+    let r ← stkZipObs ls cs
+    pure (o :: r)
+  | _, _ => none
+
 def stackStep (st : Unit) (tok : List String) (impl : String) : Unit × Verdict :=
   match tok with
   | ["reset"] => (st, verdictOf "-" impl)
@@ -85,6 +114,40 @@ def stackStep (st : Unit) (tok : List String) (impl : String) : Unit × Verdict 
         | none => false
       (st, verdictOf m impl (some prop))
     | _, _, _ => (st, .bad "rd")
+  | "wlim" :: rest =>
+    match stkNat rest "b", stkNat rest "r", (stkKV rest "w").bind (stkNatList ","), stkNat rest "room" with
+    | some b, some r, some ws, some room =>
+      if b = 0 then (st, .skip "burst 0") else
+      -- frp only builds finite limiters: `WaitN` refuses n > burst
+      let outs := writeMany false b room (ws.map fun n => List.replicate n 0)
+      let call (o : WOut) : String :=
+        s!"{o.n}:{stkWErr o.err}:{stkJoinNat "/" (o.offered.map List.length)}:{if r = 0 then stkJoinNat "/" o.reqs else "-"}"
+      let m := s!"c={"|".intercalate (outs.map call)};cat=1"
+      let prop := match (stkRes impl "c").bind (fun c => stkZipObs ws (c.splitOn "|")) with
+        | some obs => C01.wlimHoldsOn room obs && stkRes impl "cat" == some "1"
+        | none => false
+      (st, verdictOf m impl (some prop))
+    | _, _, _, _ => (st, .bad "wlim")
+  | "rlim" :: rest =>
+    match stkNat rest "b", stkNat rest "r", stkNat rest "plen", stkNat rest "per", stkNat rest "n" with
+    | some b, some r, some plen, some per, some n =>
+      if b = 0 ∨ plen = 0 ∨ per = 0 then (st, .skip "burst / buffer / segment 0") else
+      let rs := readAll false b plen per (n + 1) (List.replicate n 0)
+      let ok := rs.filter fun x => x.err == .none
+      let ns := ok.map (·.got.length)
+      let endS := match rs.getLast? with
+        | some x => (match x.err with | .eof => "eof" | .wait => "wait" | .none => "max")
+        | none => "max"
+      let m := s!"n={stkJoinNat "," ns};req={if r = 0 then stkJoinNat "," (ok.map (·.req.getD 0)) else "-"};end={endS};cat=1"
+      let prop := match (stkRes impl "n").bind (stkNatList ","), stkRes impl "req" with
+        | some ins, some rq =>
+          let reqs : Option (Option (List Nat)) := if rq = "-" then some none else (stkNatList "," rq).map some
+          match reqs with
+          | some reqs => C01.rlimHoldsOn b plen n ins reqs (stkRes impl "end" == some "eof") (stkRes impl "cat" == some "1")
+          | none => false
+        | _, _ => false
+      (st, verdictOf m impl (some prop))
+    | _, _, _, _, _ => (st, .bad "rlim")
   | "bucket" :: rest =>
     match stkNat rest "r", stkNat rest "b", stkKV rest "q" with
     | some r, some b, some q =>
